@@ -39,7 +39,7 @@ ASSUMPTIONS = [
 ]
 EXHAUSTIVE = "all junk strings of length <= 3 over the 15-character alphabet, each in a ~V, ~W, ~P and custom section"
 REQUIRED = ["reads_with_flag", "reads_without_flag", "without_flag_header_errors", "genuine_items_checked",
-            "data_comparisons", "plans_with_repeated_junk_line", "section_V", "section_W", "section_P", "section_X"]
+            "data_comparisons", "plans_with_repeated_junk_line", "plans_with_many_junk_lines_in_one_section", "section_V", "section_W", "section_P", "section_X"]
 SOFT_DEADLINE = {"quick": 90, "thorough": 1500}
 LEVEL_TEXT = ("Fault enumeration: the short junk-line space is enumerated completely at every section kind; longer lines are "
               "sampled; each faulty file is compared with its junk-free base (conservation of genuine items and data).")
@@ -104,6 +104,11 @@ def grid(tier):
         yield {"base": "gen", "vers": "2.0", "junk": batch, "seed": 0, "each_section": True}
     for n, ch in ((5000, "x"), (5000, ":"), (5000, "."), (5000, " a"), (5000, ".:"), (3000, "a.b :")):
         yield {"base": "gen", "vers": "2.0", "junk": [(ch * n)[:n]], "seed": n, "each_section": True}
+    for n in (6, 19, 20, 21, 22, 33, 64, 65, 129, 300):
+        for jk, junk in enumerate((["no separator here", "junk", "!!!", "(x)"], ["X.Y 1 : z"], ["a.b : c", "plain words", "Q : r", "..", "k .u 5 : d"])):
+            if jk and n > 40:
+                continue          # every parsable junk line becomes an item and renumbers its whole family: keep those floods small
+            yield {"base": "gen", "vers": "2.0" if (n + jk) % 2 else "1.2", "junk": junk, "seed": n + jk, "each_section": True, "flood": n}
     files = sorted(glob.glob(os.path.join(env.REPO, "tests", "examples", "**", "*.las"), recursive=True))
     for i, fn in enumerate(files):
         if os.path.getsize(fn) > 60000:
@@ -135,7 +140,12 @@ def random_case(rng, tier):
         fn = rng.choice(files)
         if os.path.getsize(fn) < 60000:
             return {"base": os.path.relpath(fn, env.REPO), "junk": junk, "seed": rng.randrange(10 ** 9), "each_section": False}
-    return {"base": "gen", "vers": rng.choice(["1.2", "2.0"]), "junk": junk, "seed": rng.randrange(10 ** 9), "each_section": False}
+    c = {"base": "gen", "vers": rng.choice(["1.2", "2.0"]), "junk": junk, "seed": rng.randrange(10 ** 9), "each_section": False}
+    if rng.random() < 0.1:
+        c.update(each_section=True, flood=rng.choice([7, 20, 21, 25, 50, 100, 128, 129, 256, 257, 500]))
+        if any("." in j or ":" in j for j in junk):
+            c["flood"] = min(c["flood"], 30)
+    return c
 
 
 def sections_of(lines):
@@ -195,7 +205,17 @@ def run_case(case, ctx):
     if not secs:
         return
     plans = []
-    if case["each_section"]:
+    if case.get("flood"):
+        # "forall counts": many junk lines in ONE section (around and beyond any small per-section threshold)
+        for (kind, title, lo, hi) in secs:
+            plan = []
+            for i in range(case["flood"]):
+                j = case["junk"][i % len(case["junk"])]
+                p2 = rng.randint(lo, hi)
+                plan.append((j, kind, title, p2, "first" if p2 == lo else "last" if p2 == hi else "middle"))
+            plans.append(plan)
+            ctx.count("plans_with_many_junk_lines_in_one_section")
+    elif case["each_section"]:
         for j in case["junk"]:
             for (kind, title, lo, hi) in secs:
                 pos = rng.choice(sorted({lo, (lo + hi) // 2, hi}))
